@@ -15,9 +15,20 @@
 //!     cookies it was given (oldest first, like a real client) and re-keys when it has none.
 //!     A cookie minted r rotations ago is accepted iff r <= h ("history old keys are kept").
 //!
+//! (C) structurally degenerate authenticators behind a valid cookie (see `degenerate()`): the
+//!     hand-framed authenticator family of `c16::Fld::RawAuth` and genuine seals that are cut,
+//!     computed over other associated data, or made with a foreign key.
+//!
+//! Authenticity is a *harness-side* predicate (`c16::Built::auth`): a request is authentic iff
+//! the harness itself sealed its (single) authenticator under the cookie's c2s key over exactly
+//! the bytes that precede the field and did not touch it afterwards, and exactly one cookie
+//! accepted by the server's key set precedes it. In NTPv4 an authenticator of <= 24 bytes at the
+//! very end of the datagram is a legacy MAC by RFC 7822 framing: such a request is plain.
+//!
 //! Oracle (from the statement), evaluated with the independent walker of c16.rs:
 //!   * request whose authentication fails  => the answer is never a time answer; it is an
-//!     NTS-NAK, or a DENY if (and only if) the policy denies the client, or nothing;
+//!     NTS-NAK, or a DENY if (and only if) the policy denies the client, or nothing; and it
+//!     never carries cookies (also checked for plain requests);
 //!   * time answer to an authenticated request => exactly one authenticator that verifies
 //!     under the cookie's s2c key with everything before it as associated data;
 //!   * fresh cookies (cookie fields anywhere in the answer): count <= number of cookie +
@@ -79,6 +90,20 @@ fn judge_answer(
     let ctxt = || format!("request {} = {}; answer = {}", req.code(), common::hex(&b.bytes), common::hex(raw));
     let mut fresh: Vec<Vec<u8>> = vec![];
     let mut classes: Vec<&'static str> = vec![];
+    if matches!(expected, AuthState::Invalid | AuthState::NoAuth) {
+        // whatever the answer is, it must not hand out cookies
+        let outer = ans.fields.iter().any(|f| f.ty == T_COOKIE);
+        let inner = open_nts(&ans, sess.s2c().as_ref()).map(|o| o.inner.iter().any(|f| f.ty == T_COOKIE)).unwrap_or(false);
+        if outer || inner {
+            classes.push("C19:cookies-without-authentication");
+            findings.report(
+                "C19:cookies-without-authentication",
+                size,
+                || format!("the answer to a request that is not authentic ({expected:?}) carries fresh cookies; {}", ctxt()),
+                trace,
+            );
+        }
+    }
     match expected {
         AuthState::Invalid => {
             match kind {
@@ -365,7 +390,15 @@ fn judge_layout(
     server: &mut Server<MockClock>,
     req: &Req,
 ) -> String {
-    let b = build(req, keys);
+    let mut b = build(req, keys);
+    if mac_like(req, &b) {
+        // RFC 7822: in NTPv4 the last <= 24 bytes of a datagram are a legacy MAC, not an
+        // extension field — such a request carries no NTS authenticator at all
+        b.auth = AuthState::NoAuth;
+        if let Some(l) = loc.as_deref_mut() {
+            l.inc("requests_authenticator_is_legacy_mac");
+        }
+    }
     let trace = || format!("layout;{};k{};{}", cfg.code(), keys.rotated as u8, req.code());
     if let Some(l) = loc.as_deref_mut() {
         l.inc("evaluations");
@@ -398,6 +431,72 @@ fn judge_layout(
         }
     }
     format!("{:?} -> {obs}", b.auth)
+}
+
+/// NTPv4 only: the authenticator is the last thing in the datagram and at most 24 bytes long.
+fn mac_like(req: &Req, b: &Built) -> bool {
+    req.ver == 4
+        && req.mac == 0
+        && matches!(req.fields.last(), Some(Fld::Auth(..)) | Some(Fld::RawAuth(..)))
+        && b.spans.last().map(|s| s.ty == T_AUTH && s.wire <= 24).unwrap_or(false)
+}
+
+// ---- (C) structurally degenerate authenticators ----------------------------------------------
+
+/// Requests with a valid cookie whose authenticator was *not* sealed by the harness under the
+/// c2s key over the preceding bytes: hand-framed authenticator fields (nonce length 0..=20 x
+/// ciphertext length 0..=20 x body length consistent-4..=+3 [v4: -4,0,+4]) and genuine seals over
+/// other associated data / cut to 0..15 bytes / of an empty plaintext under a foreign key;
+/// each with {nothing, identifier, identifier+placeholder} in front of the cookie and
+/// {nothing, unknown, unknown+identifier} after the authenticator.
+fn degenerate(_thorough: bool) -> Vec<Req> {
+    let mut out = vec![];
+    let pres: [Vec<Fld>; 3] = [vec![], vec![Fld::Uid(32)], vec![Fld::Uid(32), Fld::Ph(0)]];
+    let posts: [Vec<Fld>; 3] = [vec![], vec![Fld::Unk(24)], vec![Fld::Unk(24), Fld::Uid(32)]];
+    let mut push = |ver: u8, alg512: bool, pre: &Vec<Fld>, auth: Fld, post: &Vec<Fld>, cookie_first: bool| {
+        let mut f = vec![];
+        if ver == 5 {
+            f.push(Fld::Draft(true));
+        }
+        if cookie_first {
+            f.push(Fld::Cookie(Ck::Cur, 0));
+            f.extend(pre.iter().cloned());
+        } else {
+            f.extend(pre.iter().cloned());
+            f.push(Fld::Cookie(Ck::Cur, 0));
+        }
+        f.push(auth);
+        f.extend(post.iter().cloned());
+        let mut r = Req::plain(ver, f);
+        r.alg512 = alg512;
+        out.push(r);
+    };
+    for ver in [4u8, 5] {
+        let deltas: &[i32] = if ver == 5 { &[-4, -3, -2, -1, 0, 1, 2, 3] } else { &[-4, 0, 4] };
+        for pre in pres.iter() {
+            for post in posts.iter() {
+                for nl in 0..=20u16 {
+                    for cl in 0..=20u16 {
+                        let consistent = 4 + ((nl as i32 + 3) & !3) + cl as i32;
+                        for d in deltas {
+                            push(ver, false, pre, Fld::RawAuth(nl, cl, (consistent + d).max(0) as u16), post, (nl + cl) % 2 == 1);
+                        }
+                    }
+                }
+                for alg512 in [false, true] {
+                    let mut aus = vec![Au::OtherAad, Au::ForeignEmpty];
+                    for k in 0..16u8 {
+                        aus.push(Au::Trunc(k));
+                    }
+                    for au in aus {
+                        push(ver, alg512, pre, Fld::Auth(au, vec![]), post, false);
+                        push(ver, alg512, pre, Fld::Auth(au, vec![Fld::Ph(0)]), post, false);
+                    }
+                }
+            }
+        }
+    }
+    out
 }
 
 // ---- (B) rotation histories -----------------------------------------------------------------
@@ -524,6 +623,10 @@ fn check() {
          (thorough: all with total <=9) x placeholder length {-4,0,+4} x authenticator {valid, 8-byte nonce, bad tag, wrong key} x extra encrypted \
          fields {no, yes}; environments {open, denylist} x key set {rotated twice, fresh}. (B) every event word of length <=6 (thorough 8) over \
          {rotate, poll, poll+2 placeholders} x provider history {0,1,2} x version {4,5} x AEAD {256,512}, client re-using the cookies it was given. \
+         (C) structurally degenerate authenticators behind a valid cookie: hand-framed field 0x0404 with nonce length 0..=20 x ciphertext length 0..=20 x \
+         body length consistent-4..=+3 (v4: -4,0,+4), and genuine c2s seals over other associated data / cut to 0..15 bytes / of an empty plaintext under a \
+         foreign key (both AEADs, with and without an encrypted placeholder); x {nothing, identifier, identifier+placeholder} in front x {nothing, unknown, \
+         unknown+identifier} behind; environments {open/rotated, denylist/fresh, open/fresh}. \
          Distinct & non-trivial = an answered (environment, layout), or a complete history.",
     );
     ctx.assume("a request with several cookies in front of the authenticator, or several authenticators, may be either refused (NAK) or answered with an authenticated answer");
@@ -548,6 +651,21 @@ fn check() {
             ctx.cap_hit("budget reached inside part (A)");
             break;
         }
+    }
+    // (C)
+    let degen = degenerate(thorough);
+    ctx.set("degenerate_requests", degen.len() as u64);
+    for (cfg, rotated) in [(Cfg::Open, true), (Cfg::DenyList, false), (Cfg::Open, false)] {
+        let keys = key_env(rotated);
+        common::par_for_with(
+            degen.len() as u64,
+            64,
+            || (Local::new(&ctx), make_server(cfg, &Sync::TYPICAL, &keys.server)),
+            |(loc, server), i| {
+                loc.inc("degenerate_cases");
+                judge_layout(&findings, Some(loc), cfg, &keys, server, &degen[i as usize]);
+            },
+        );
     }
     // (B)
     let depth = if thorough { 8 } else { 6 };
@@ -605,7 +723,7 @@ fn check() {
     }
     findings.flush(&ctx);
     ctx.set("transitions", ctx.get("evaluations"));
-    ctx.set("states", ctx.get("layouts") * 4 + ctx.get("histories"));
+    ctx.set("states", ctx.get("layouts") * 4 + ctx.get("degenerate_cases") + ctx.get("histories"));
     ctx.exhaustive(ctx.get("histories") > 0);
     ctx.finish();
 }
